@@ -4,6 +4,11 @@ hold further mounts, tmpfs, proc ro / rw, nested targets, missing sources) are g
 sequence (namespace runner: raw syscalls in the forked child; container: container init).  From the host the mount table of
 the sandboxed process (/proc/<pid>/mountinfo) is read and compared in Coq with `build_table`; inside, a probe lists /, looks
 for the old root, and tries to write into every mount and into /; an independent oracle checks the statement of the property.
+The raw in-child sequence is also driven the way a caller of pkg/forkexec may drive it ("raw"): every table under several sets
+of namespaces (mount namespace with / without user, pid, uts, ipc, net, cgroup namespace), identity mappings, with / without
+dropped capabilities.  A start that is refused is fine (nothing ran: the probe printed nothing); a program that runs sees what
+the property says.  A second probe (probes/fsmodify.c) modifies objects that EXIST below the mounts (a file of a bound directory,
+a bound file, /proc/self/comm) and reports which proc instance a proc mount shows.
 The harness runs in a private mount namespace (unshare -m)."""
 import json
 import os
@@ -14,16 +19,36 @@ FINISH = dict(level="proof", rule=(
     "mount tables of 2..8 entries over 6 source directories (two of which hold a tmpfs mount) and 2 source files: bind "
     "{recursive, non-recursive} x {ro, rw} x {dir, file}, tmpfs, proc {ro, rw}, targets 1..3 components deep and nested in an "
     "earlier tmpfs, sources that do not exist (filtered); each table under the namespace runner and the container (with and "
-    "without an InitCommand).  Non-trivial: a table with at least one read-only and one writable entry; distinct = distinct "
-    "(table, implementation)."))
+    "without an InitCommand), and under pkg/forkexec driven directly with 2 sets of namespaces per table (user x pid namespace present "
+    "or not, uts/ipc/net/cgroup at random, uid 0 or 1000 inside, capabilities dropped or not).  Non-trivial: a table with at least one "
+    "read-only and one writable entry; distinct = distinct (table, implementation, launcher configuration)."))
 
 HDR = "From Coq Require Import List NArith.\nImport ListNotations.\nFrom GS Require Import Kernel.Mount Kernel.EvalMount.\n"
 BIND_REC, BIND_RAW, TMPFS, PROC = 4096 + 2 + 262144 + 16384, 4096, 2 + 1024 + 4, 2 + 4 + 8
 
 
+def existing_objects(m):
+    """What probes/fsmodify.c is asked about a mount: w:<an object that exists below it>, p:<a proc mount>."""
+    t = "/" + m["target"]
+    if m["kind"] == "bind":
+        return ["w:" + (t if m.get("file") else t + "/data.txt")]
+    if m["kind"] == "proc":
+        return ["w:" + t + "/self/comm", "p:" + t]
+    return []
+
+
+def kernel_refuses(x, kept):
+    """Kernel rules (not the launcher's) under which the raw sequence of a table cannot succeed, so that a refused start is what a caller
+    must expect: a new proc instance can only be mounted by a task that is privileged over its pid namespace; a task in a new user
+    namespace that stays in the pid namespace of its parent is not (mount(2) of proc: EPERM)."""
+    ns = x["namespaces"]
+    return "user" in ns and "pid" not in ns and any(m["kind"] == "proc" for m in kept)
+
+
 def run(c):
     exe = c.build_harness("h_c05")
     c.build_probe("target")
+    c.build_probe("fsmodify")
     scratch = os.path.realpath(c.tmpdir("scratch"))
     env = dict(os.environ, VERIF_SCRATCH=scratch)
     srcs = []
@@ -39,6 +64,7 @@ def run(c):
         files.append(f)
     sub_of = {srcs[0]: "sub", srcs[1]: "inner"}          # these two sources hold a mount
     r = c.rng("tables")
+    rr = c.rng("launcher-configurations")                # a stream of its own: the tables stay what they were
     names = {}
     num = lambda s: names.setdefault(s, len(names) + 1)
     comps = lambda p: coq_list([str(num(x)) for x in p.split("/") if x])
@@ -75,21 +101,34 @@ def run(c):
         if not mounts:
             continue
         subm = sorted(set(m["source"] + "/" + sub_of[m["source"]] for m in mounts if m.get("source") in sub_of))
-        probe = ["/"]
+        probe, modify = ["/"], []
         for m in mounts:
             if not m.get("missing"):
                 probe.append("/" + m["target"])
+                modify += existing_objects(m)
                 if m["kind"] == "bind" and m.get("rec") and m["source"] in sub_of:
                     probe.append("/" + m["target"] + "/" + sub_of[m["source"]])
         for impl in ("ns", "container", "container+init"):
-            cases.append({"id": len(cases), "runner": impl.split("+")[0], "init_cmd": impl.endswith("+init"), "submounts": subm, "mounts": mounts, "probe": probe})
+            cases.append({"id": len(cases), "runner": impl.split("+")[0], "init_cmd": impl.endswith("+init"), "submounts": subm, "mounts": mounts, "probe": probe,
+                          "modify": modify})
             metas.append((ti, impl))
+        # the launcher driven directly: the same table under namespace sets other than the one runner/unshare fixes.  Per table two of the
+        # four combinations (user namespace?, pid namespace?), the other namespaces at random
+        combos = [(u, p_) for u in (True, False) for p_ in (True, False)]
+        rr.shuffle(combos)
+        for user, pidns in combos[:2]:
+            nss = ["mnt"] + (["user"] if user else []) + (["pid"] if pidns else []) + [n for n in ("uts", "ipc", "net", "cgroup") if rr.random() < 0.35]
+            cases.append({"id": len(cases), "runner": "raw", "init_cmd": False, "submounts": subm, "mounts": mounts, "probe": probe, "modify": modify,
+                          "namespaces": nss, "drop_caps": rr.random() < 0.5, "no_new_privs": rr.random() < 0.5,
+                          "id_inside": rr.choice([0, 1000]) if user else None})
+            metas.append((ti, "raw"))
     # private mount namespace for the harness; the directory that holds the bind sources is made a SHARED mount in it, so that a sandbox
     # whose mounts were not detached from the host's propagation would show it in its mount table (master:N / shared:N)
     obs = c.run_harness("/usr/bin/unshare", cases, args=("-m", "--propagation", "private", "sh", "-c",
                                                           "mount --bind \"$VERIF_SCRATCH\" \"$VERIF_SCRATCH\" && mount --make-shared \"$VERIF_SCRATCH\" && exec " + exe),
                         env=env, timeout=1500)
     items, src, mask_items, maskdir_items = [], [], [], []
+    secs = c.cov.setdefault("seconds_by_implementation", {})
     for x, (ti, impl), o in zip(cases, metas, obs):
         if "harness_err" in o:
             raise RuntimeError(o["harness_err"])
@@ -97,7 +136,30 @@ def run(c):
                "mountinfo": (o.get("mountinfo") or "").splitlines(), "probe": o.get("probe"), "status": o.get("status"), "error": o.get("error") or o.get("build_err")}
         cz = lambda what, **kw: dict({"kind": "confinement", "what": what, "implementation": impl.split("+")[0]}, **kw)
         kept = [m for m in x["mounts"] if not m.get("missing")]
-        c.count(json.dumps([x["mounts"], impl]), nontrivial=any(m["ro"] for m in kept) and any(not m["ro"] for m in kept), klass="table:" + impl)
+        in_container = impl.startswith("container")
+        secs[impl] = secs.get(impl, 0) + o.get("ms", 0) / 1000.0
+        c.cov["container_builds_retried_after_ping_timeout"] = c.cov.get("container_builds_retried_after_ping_timeout", 0) + int(o.get("build_retries") or 0)
+        conf = None
+        if impl == "raw":
+            conf = {"namespaces": x["namespaces"], "drop_caps": x["drop_caps"], "no_new_privs": x["no_new_privs"], "id_inside": x["id_inside"]}
+            rep["launcher_configuration"] = dict(conf, launcher="forkexec.Runner{CloneFlags, Mounts: Builder.Build(), PivotRoot, DropCaps, NoNewPrivs, UID/GIDMappings}.Start()")
+            rep["modifications_of_existing_objects"] = o.get("modify")
+        c.count(json.dumps([x["mounts"], impl, conf]), nontrivial=any(m["ro"] for m in kept) and any(not m["ro"] for m in kept), klass="table:" + impl)
+        if impl == "raw":
+            nk = "raw.ns:" + "+".join(n for n in ("user", "pid") if n in x["namespaces"]) if set(x["namespaces"]) & {"user", "pid"} else "raw.ns:mnt-only"
+            c.dist[nk] = c.dist.get(nk, 0) + 1
+            if o.get("started") is False:
+                # a refused start: fine as long as nothing ran (fails closed), and expected only where the kernel refuses the table
+                c.dist["raw.refused"] = c.dist.get("raw.refused", 0) + 1
+                if o.get("probe") or o.get("modify"):
+                    c.finding_or_violation(cz("a start that was reported as failed ran the program", error=str(o.get("start_err"))[:80]), rep, klass="refused-ran")
+                elif not kernel_refuses(x, kept):
+                    c.finding_or_violation(cz("the sandbox cannot be built or the probe does not run", error=str(o.get("start_err"))[:80]),
+                                           dict(rep, error=o.get("start_err")), klass="build")
+                else:
+                    c.cov["raw_refused_by_kernel_rule"] = c.cov.get("raw_refused_by_kernel_rule", 0) + 1
+                continue
+            c.cov["raw_started"] = c.cov.get("raw_started", 0) + 1
         for m in kept:
             key = "mount.%s%s%s" % (m["kind"], ".ro" if m["ro"] else ".rw", ".raw" if m.get("rec") is False else "")
             c.dist[key] = c.dist.get(key, 0) + 1
@@ -105,7 +167,10 @@ def run(c):
             c.finding_or_violation(cz("the sandbox cannot be built or the probe does not run", error=str(rep["error"])[:80]), rep, klass="build")
             continue
         pr = json.loads(o["probe"])
-        allowed = set(m["target"].split("/")[0] for m in kept) | {"vb"} | ({"dev"} if impl != "ns" else set())
+        mod = json.loads(o["modify"]) if (o.get("modify") or "").startswith("{") else {}
+        if x.get("modify") and not mod:
+            c.finding_or_violation(cz("the sandbox cannot be built or the probe does not run", error="no report of probe_fsmodify"), rep, klass="build")
+        allowed = set(m["target"].split("/")[0] for m in kept) | {"vb"} | ({"dev"} if in_container else set())
         extra = [n for n in pr["root"] if n not in allowed]
         if extra:
             c.finding_or_violation(cz("the root holds entries that were not configured", entries=extra[:5]), rep, klass="root-extra")
@@ -122,11 +187,29 @@ def run(c):
             if p is None:
                 continue
             if m["ro"] and (p["ro"] != 1 or p["write_errno"] == 0):
-                c.finding_or_violation(cz("a mount declared read-only accepts writes", mount=m["kind"], recursive=m.get("rec")), dict(rep, mount=m, probe_of_mount=p),
-                                       klass="ro-writable")
+                c.finding_or_violation(cz("a mount declared read-only accepts writes", mount=m["kind"], recursive=m.get("rec")),
+                                       dict(rep, mount=m, probe_of_mount=p, expected="statfs(/%s) has ST_RDONLY (ro = 1) and creating / opening for writing fails (write_errno != 0)" % m["target"],
+                                            observed=p), klass="ro-writable")
             if not m["ro"] and (p["ro"] != 0 or (p["write_errno"] != 0 and m["kind"] != "proc")):
                 c.finding_or_violation(cz("a mount declared writable rejects writes", mount=m["kind"], errno=p["write_errno"]), dict(rep, mount=m, probe_of_mount=p),
                                        klass="rw-readonly")
+            # objects that exist below the mount (probes/fsmodify.c)
+            for key in existing_objects(m):
+                e = mod.get(key)
+                if e is None:
+                    continue
+                if key.startswith("w:"):
+                    c.cov["existing_objects_modified"] = c.cov.get("existing_objects_modified", 0) + 1
+                    if m["ro"] and e["open_errno"] == 0 and e["write_errno"] == 0:
+                        c.finding_or_violation(cz("a mount declared read-only accepts writes", mount=m["kind"], recursive=m.get("rec"), object="existing file"),
+                                               dict(rep, mount=m, probe_of_mount=p, expected="open(%s, O_WRONLY) fails with EROFS (30)" % key[2:],
+                                                    observed=e), klass="ro-writable")
+                    if not m["ro"] and m["kind"] == "bind" and (e["open_errno"] != 0 or e["write_errno"] != 0):
+                        c.finding_or_violation(cz("a mount declared writable rejects writes", mount=m["kind"], errno=e["open_errno"] or e["write_errno"], object="existing file"),
+                                               dict(rep, mount=m, probe_of_mount=p, observed=e), klass="rw-readonly")
+                elif e["self_is_me"] != 1 or e["type"] != 0x9fa0:
+                    c.finding_or_violation(cz("a proc mount does not show the pid namespace of the program (it shows processes of another one, or is no proc)"),
+                                           dict(rep, mount=m, expected="%s/self names the program, file system type 0x9fa0" % key[2:], observed=e), klass="proc-instance")
             if m["kind"] == "bind" and m.get("rec") and m.get("source") in sub_of and m["ro"]:
                 q = pr["paths"].get("/" + m["target"] + "/" + sub_of[m["source"]])
                 if q and (q["ro"] != 1 or q["write_errno"] == 0):
@@ -141,6 +224,9 @@ def run(c):
                 c.finding_or_violation(cz("a mount of the sandbox is attached to the host's mount propagation", tag=tags[0].split(":")[0]),
                                        dict(rep, mount_line=ln), klass="propagation")
             if mp.startswith("/proc/"):
+                if not in_container:
+                    # the raw sequence masks nothing: whatever is mounted below the proc mount was not declared
+                    c.finding_or_violation(cz("a mount that was not declared lies below a declared mount", below="proc"), dict(rep, mount_line=ln), klass="undeclared-mount")
                 continue                               # mask mounts of the container (checked through the probe)
             table.append("(%s, %s)" % (comps(mp), "true" if "ro" in opts else "false"))
         decls = ["{| d_kind := FBind; d_source := %d; d_target := %s; d_flags := %d |}" % (num("<bin>"), comps("vb"), BIND_REC + 1)]
@@ -159,7 +245,7 @@ def run(c):
         src.append(x["id"])
         if o.get("kcore_read", None) is not None:
             pass
-        if impl != "ns" and any(m["kind"] == "proc" and m["target"] == "proc" for m in kept) and pr.get("maskdir_write", -2) != -2:
+        if in_container and any(m["kind"] == "proc" and m["target"] == "proc" for m in kept) and pr.get("maskdir_write", -2) != -2:
             ml = [ln.split(" ") for ln in (o.get("mountinfo") or "").splitlines() if ln.split(" ")[4] == "/proc/acpi"]
             cb_ = lambda v: "true" if v else "false"
             if ml:
@@ -167,14 +253,16 @@ def run(c):
                 maskdir_items.append("(%s, true, %s, %s)" % (cb_(x["init_cmd"]), cb_(f[f.index("-") + 1] == "tmpfs"), cb_("ro" in f[5].split(","))))
             else:
                 maskdir_items.append("(%s, false, false, false)" % cb_(x["init_cmd"]))
-        if impl != "ns" and any(m["kind"] == "proc" for m in kept) and pr["kcore_read"] != -2:
+        if in_container and any(m["kind"] == "proc" for m in kept) and pr["kcore_read"] != -2:
             mask_items.append("(%s, %s)" % ("true" if x["init_cmd"] else "false", "true" if pr["kcore_read"] > 0 else "false"))
         c.cov["masked_directory_probed"] = c.cov.get("masked_directory_probed", 0) + (1 if pr.get("maskdir_write", -2) != -2 else 0)
         if pr.get("maskdir_write", -2) == 0:
             c.finding_or_violation(cz("a masked directory accepts new files (a writable place that is not among the declared mounts)", dev_null_in_container=bool(x["init_cmd"])),
                                    dict(rep, masked_directory="/proc/acpi"), klass="mask")
-        if impl != "ns" and any(m["kind"] == "proc" for m in kept) and pr["kcore_read"] not in (0, -2):
+        if in_container and any(m["kind"] == "proc" for m in kept) and pr["kcore_read"] not in (0, -2):
             c.finding_or_violation(cz("a masked path reveals content", dev_null_in_container=bool(x["init_cmd"])), dict(rep, bytes_read_from_proc_timer_list=pr["kcore_read"]), klass="mask")
+    for k in secs:
+        secs[k] = round(secs[k], 1)
     c.sample({"implementation": metas[0][1], "mounts": cases[0]["mounts"], "mountinfo": (obs[0].get("mountinfo") or "").splitlines()[:10],
               "probe": json.loads(obs[0]["probe"]) if (obs[0].get("probe") or "").startswith("{") else obs[0].get("probe")})
     # ---- one base table handed to two builders
